@@ -415,7 +415,8 @@ def lint_program(rng):
                             neg(num(0)), bin_('multiply', num(0), neg(num(5))), bin_('divide', num(0), neg(num(2))), bin_('divide', neg(num(1)), num(0))])
             return e, ('numexpr', e)
         if r < 0.7:
-            s = rng.choice(['hello', '', 'with spaces', 'pun,ct!', 'two\nlines', 'é', ' lead'])
+            s = rng.choice(['hello', '', 'with spaces', 'pun,ct!', 'two\nlines', 'é', ' lead', 'a (b) c', '(open', 'close)', 'x (y) (z',
+                            ')(', '(a) (b)', 'say 5', 'trail '])
             return st(s), ('str', s)
         if r < 0.8:
             return rng.choice([TRUE, NULL, MYST]), None
